@@ -1217,6 +1217,9 @@ impl ViCut {
 		let Val::Num(right) = right else {
 			return Err(format!("Right value {right} is not a number"))
 		};
+		if right == 0 && matches!(op, BinOp::Div | BinOp::Mod) {
+			return Err("Division by zero".to_string())
+		}
 		Ok(Val::Num(match op {
 			BinOp::Add => left + right,
 			BinOp::Sub => left - right,
@@ -1280,6 +1283,9 @@ impl ViCut {
 						*var /= value;
 					}
 					BinOp::Mod => {
+						if value == 0 {
+							return Err("Division by zero".to_string())
+						}
 						*var %= value;
 					}
 					BinOp::Pow => {
